@@ -119,6 +119,10 @@ type lbCfg struct {
 	// StrictHeader turns the known loss of a picker status inside
 	// ClientStream.Header() (probe picker_status_lost_in_header) into a violation.
 	StrictHeader bool `json:"strict_header,omitempty"`
+	// StrictAddrs turns the known finding "a health-checked SubConn keeps a
+	// connection to an address that UpdateAddresses removed" (probe
+	// unlisted_connection_kept_after_update_addresses) into a violation.
+	StrictAddrs bool `json:"strict_addrs,omitempty"`
 	// Check selects the oracle groups: c23, c30, c32 (empty: all).
 	Check []string `json:"check,omitempty"`
 }
